@@ -510,7 +510,10 @@ struct TimerModel : mc::Model
         return true;
     }
 
-    // real list order, by a bounded walk over the manager's private list (key + pending-set oracle)
+#ifndef C16_PUBLIC_ONLY
+    // real list order, by a bounded walk over the manager's private list (key + pending-set oracle).
+    // The only code that depends on private NAMES (timer_list, lnk, _start, _interval) is inside
+    // #ifndef C16_PUBLIC_ONLY; build.sh falls back to -DC16_PUBLIC_ONLY when this does not compile.
     bool impl_order(int *out, int &n)
     {
         igris::dlist_node *head = &mgr->timer_list.list;
@@ -529,6 +532,18 @@ struct TimerModel : mc::Model
         }
         return true;
     }
+#else
+    // public API only: the manager cannot be iterated, so the order is the reference's (deadline, then
+    // order of planning); "false" once an oracle has failed in this universe (teardown guard)
+    bool impl_order(int *out, int &n)
+    {
+        n = fifo.n;
+        for (int i = 0; i < n; i++)
+            out[i] = fifo.v[i];
+        return !suspect;
+    }
+#endif
+    bool suspect = false; // an oracle failed in this universe: do not tear the real objects down
 
     void check(const char *sigk)
     {
@@ -536,6 +551,7 @@ struct TimerModel : mc::Model
             mc::harness_error("system_lock depth %d after %s", g_lock_depth, sigk);
         int npend = 0;
         int64_t mind = 0;
+#ifndef C16_PUBLIC_ONLY
         {
             // the manager's list holds exactly the live timers that are pending in the reference
             int ord[MAXN], n = 0, want = 0;
@@ -550,9 +566,11 @@ struct TimerModel : mc::Model
                 mc::violation(mc::fmt("C16.%s.pending_list", sigk), "manager list %s; reference has %d pending (now=%lld)",
                               ok ? "has a different number of timers" : "reaches a destroyed or unplanned timer, or does not close", want,
                               (long long)now);
+                suspect = true;
                 return;
             }
         }
+#endif
         for (int t = 0; t < N; t++)
         {
             if (!ref[t].alive)
@@ -585,11 +603,14 @@ struct TimerModel : mc::Model
                 mc::violation(mc::fmt("C16.%s.minimal_interval", sigk), "minimal_interval(%lld)=%lld, reference next deadline %lld",
                               (long long)now, (long long)mi, (long long)mind);
         }
+        if (mc::case_has_violation())
+            suspect = true;
     }
 
     // Canonical key, printable, 6 bits per character:
     //   now | per timer: alive, script, planned?, interval, start (the real object's private fields)
     //       | the manager's real list order | the reference's (planned, start, interval) wherever it differs
+    // With -DC16_PUBLIC_ONLY (private names not available): reference state (+) every public observer.
     static void put(string &k, long v, int chars)
     {
         if (v < 0 || v >= (1L << (6 * chars)))
@@ -611,7 +632,15 @@ struct TimerModel : mc::Model
                 continue;
             }
             bool pl = tim[t]->is_planned();
+#ifndef C16_PUBLIC_ONLY
             int64_t st = tim[t]->_start, iv = tim[t]->_interval;
+#else
+            // public observers only: is_planned() and finish(); start/interval are the reference's, which
+            // determine the real ones on every state that passed the oracles (conforming implementation)
+            int64_t st = ref[t].start, iv = ref[t].interval;
+            if (tim[t]->finish() != st + iv)
+                diff += mc::fmt("F%d:%lld", t, (long long)tim[t]->finish());
+#endif
             put(k, ref[t].script * 2 + pl, 1);
             put(k, iv * 1024 + (st + 256), 2); // interval 0..3, start -256..767
             if (pl != ref[t].planned || st != ref[t].start || iv != ref[t].interval)
@@ -621,6 +650,10 @@ struct TimerModel : mc::Model
         k += impl_order(ord, n) ? "|" : "!";
         for (int i = 0; i < n; i++)
             k += (char)('0' + ord[i]);
+#ifdef C16_PUBLIC_ONLY
+        if (mgr->empty() != (fifo.n == 0))
+            diff += "E";
+#endif
         return k + diff;
     }
 };
